@@ -30,6 +30,11 @@ def base_specs(seed, tier):
                                target=rng.choice(["quad", "abs"]))
             sp["options"] = {"n_search": 32, "max_fun_evals": (D_budget(sp["D"], mode)), "noise_final_samples": rng.choice([1, 3]) if mode != "det" else 10}
             specs.append(sp)
+    # the display levels (basic option): 'iter' and 'full' switch the per-iteration / per-evaluation reporting on
+    for mode, disp in (("det", "full"), ("he", "full"), ("auto", "iter")):
+        sp = gen.make_spec(rng, D=rng.choice([1, 2]), geom="box", mode=mode, cons=None, target="quad")
+        sp["options"] = {"n_search": 32, "max_fun_evals": D_budget(sp["D"], mode), "noise_final_samples": 2, "display": disp}
+        specs.append(sp)
     return specs
 
 
